@@ -1,2 +1,81 @@
-(* C06 - theorems follow in this commit series *)
-From TW Require Import Bytes.
+(* C06 - layouts: reserves filled by inserts.
+   Proved on the loader + evaluator model: a page that declares @use(L) loads to the layout's
+   program alone (page text outside inserts is gone); inserts are attached to their reserves wherever
+   these stand (inside @if / @each bodies too); a filled reserve shows exactly what the insert's body
+   (or expression) renders in place with the data of the call, an unfilled one nothing; an insert
+   without a reserve and a missing layout are load errors, a layout that uses a layout fails when
+   rendered; '~x' is 'layouts/x'.  The end-to-end equation "String(page) = EvaluateString(layout
+   text with every @reserve replaced by the insert's text)" is decided on generated trees. *)
+From Coq Require Import String.
+From TW Require Import Bytes GenToken Lexer Ast Parser Values Builtins Eval Render Api Layouts.
+Open Scope N_scope.
+
+Theorem C06_page_with_layout_is_the_layout fs cfg rel p uln lname ss isl :
+  parse_file fs rel = LOk (PProg p) -> p_use p = Some (uln, lname) ->
+  load_page fs cfg rel = LOk (ss, isl) ->
+  exists hu lstmts, ss = [SUse uln lname (Some (true, hu, lstmts))].
+Proof. exact (page_with_layout_is_the_layout fs cfg rel p uln lname ss isl). Qed.
+Print Assumptions C06_page_with_layout_is_the_layout.
+
+Theorem C06_use_renders_the_layout cx f en uln lname lstmts :
+  eval_stmt cx (S f) en (SUse uln lname (Some (true, false, lstmts))) =
+  (let! r := eval_program cx f en lstmts [] in Ok (VUse (VHtml (fst r)), snd r)).
+Proof. exact (use_renders_the_layout cx f en uln lname lstmts). Qed.
+Print Assumptions C06_use_renders_the_layout.
+
+Theorem C06_reserve_filled_by_block cx f en ln rid n iln arg b :
+  eval_stmt cx (S f) en (SReserve ln rid n (Some (iln, arg, Some b))) =
+  (let! r := eval_block cx f en b [] in Ok (VReserve (fst r) None, snd r)) /\
+  (forall v, value_string (VReserve v None) = value_string v).
+Proof. exact (reserve_filled_by_block cx f en ln rid n iln arg b). Qed.
+Print Assumptions C06_reserve_filled_by_block.
+
+Theorem C06_reserve_filled_by_expression cx f en ln rid n iln arg :
+  arg <> ENull ->
+  eval_stmt cx (S f) en (SReserve ln rid n (Some (iln, arg, None))) =
+  (let! v := eval_expr cx f en arg in Ok (VReserve VNil (Some v), en)) /\
+  (forall v, value_string (VReserve VNil (Some v)) = value_string v).
+Proof. exact (reserve_filled_by_expression cx f en ln rid n iln arg). Qed.
+Print Assumptions C06_reserve_filled_by_expression.
+
+Theorem C06_unfilled_reserve_shows_nothing cx f en ln rid n :
+  eval_stmt cx (S f) en (SReserve ln rid n None) = Ok (VNil, en) /\ value_string VNil = Some [].
+Proof. exact (unfilled_reserve_shows_nothing cx f en ln rid n). Qed.
+Print Assumptions C06_unfilled_reserve_shows_nothing.
+
+Theorem C06_inserts_reach_reserves_inside_blocks cb ri f ln c thn alts alt rid n old iln arg body :
+  rw_stmt cb ri (S f) (SIf ln c thn alts alt) =
+  SIf ln c (map (rw_stmt cb ri f) thn) (map (fun ab => (fst ab, map (rw_stmt cb ri f) (snd ab))) alts)
+      (match alt with Some b => Some (map (rw_stmt cb ri f) b) | None => None end) /\
+  (ri rid = Some (iln, arg, body) ->
+   rw_stmt cb ri (S f) (SReserve ln rid n old) = SReserve ln rid n (Some (iln, arg, body))).
+Proof.
+  split; [exact (inserts_reach_reserves_inside_blocks cb ri f ln c thn alts alt)|
+          exact (insert_attached_to_its_reserve cb ri f ln rid n old iln arg body)].
+Qed.
+Print Assumptions C06_inserts_reach_reserves_inside_blocks.
+
+Theorem C06_undefined_insert_is_a_load_error fs cfg rel p uln lname lp i :
+  parse_file fs rel = LOk (PProg p) -> p_use p = Some (uln, lname) ->
+  parse_file fs (rel_of cfg lname) = LOk (PProg lp) ->
+  undefined_insert (asort (p_inserts p)) (p_reserves lp) = Some i ->
+  load_page fs cfg rel = LErr (mkErr (ins_ln i) (abs_path rel) (fmt ErrUndefinedInsert [ins_name i])).
+Proof. exact (undefined_insert_is_a_load_error fs cfg rel p uln lname lp i). Qed.
+Print Assumptions C06_undefined_insert_is_a_load_error.
+
+Theorem C06_missing_layout_is_a_load_error fs cfg rel p uln lname ne msg :
+  parse_file fs rel = LOk (PProg p) -> p_use p = Some (uln, lname) ->
+  parse_file fs (rel_of cfg lname) = LOk (PReadErr ne msg) ->
+  load_page fs cfg rel = LErr (mkErr uln (abs_path (rel_of cfg lname)) msg).
+Proof. exact (missing_layout_is_a_load_error fs cfg rel p uln lname ne msg). Qed.
+Print Assumptions C06_missing_layout_is_a_load_error.
+
+Theorem C06_layout_using_a_layout_fails cx f en uln lname lstmts :
+  eval_stmt cx (S f) en (SUse uln lname (Some (true, true, lstmts))) = Fail uln (fmt ErrUseStmtNotAllowed []).
+Proof. exact (layout_using_a_layout_fails cx f en uln lname lstmts). Qed.
+Print Assumptions C06_layout_using_a_layout_fails.
+
+Theorem C06_tilde_alias st name dir :
+  tlit (curT st) = 126 :: name -> aliasPath st dir = (dir ++ [47] ++ name, st).
+Proof. exact (alias_path st name dir). Qed.
+Print Assumptions C06_tilde_alias.
